@@ -44,7 +44,7 @@ extern "C" void h_region_history(void) {
          vp_assert(!eh.global() && !body.global(), 4);
          { const ipr::Region& guarded = static_cast<const ipr::Block&>(*b).region();           // the guarded block still owns its region once it has a handler
            vp_assert(guarded.owner().is_valid() && &guarded.owner().get() == b && &guarded.enclosing() == p.r, 10); }
-         m.ir = &h->body().lexical_region; m.r = &body; m.parent = &eh; m.owner_known = false; m.depth = p.depth + 2; break; }
+         m.ir = &h->body().lexical_region; m.r = &body; m.parent = &eh; m.owner = &ch.body(); m.owner_known = true; m.depth = p.depth + 2; break; }      // the body of a handler is a block: it owns its region
       case KMapping: { auto* x = lx.make_mapping(*p.r, Mapping_level{ 1 }); m.r = &x->parameters().region(); m.owner = x; break; }
       case KLambda: { auto* x = lx.make_lambda(*p.r, Mapping_level{ 1 }); m.r = &x->parameters().region(); m.owner = x; break; }
       case KWhere: { auto* x = lx.make_where(*p.r); m.ir = &x->region; m.r = &x->region; m.owner_known = false; break; }
